@@ -396,6 +396,10 @@ pub fn scenario(seed: u64, ka_heavy: bool) -> Made {
                         q.answers.push(k);
                     }
                 }
+                // header bits that stub resolvers set and that mean nothing to a responder: RD, AD, CD, AA
+                if rng.chance(1, 4) {
+                    q.flags |= *rng.pick(&[0x0100u16, 0x0120, 0x0010, 0x0400, 0x0020]);
+                }
                 // what ordinary stub resolvers append: an EDNS0 OPT pseudo-record (root name, no RDATA or one option),
                 // or a record of a type the daemon has never heard of
                 match rng.below(10) {
